@@ -32,7 +32,8 @@ RULE = (
     "(c) in a persistent worker interpreter started with DASK_ARRAY__QUERY_PLANNING=True. Oracle: expr value/shape/dtype "
     "== NumPy (floats within 1e-9 relative: summation order), lazy shape/dtype == computed, lazy .chunks == classic "
     "engine's .chunks; x.optimize(), x.simplify() and x.expr.lower_completely() keep chunks, shape, dtype and values. "
-    "NotImplementedError in the worker => outside the domain (Reject); any other exception => violation. enum: every "
+    "NotImplementedError in the worker => outside the domain (Reject) -- unless it was raised while handling another exception "
+    "(a blanket `except Exception: raise NotImplementedError` relabelling a crash; sig flag `masked`); any other exception => violation. enum: every "
     "chunking of a (3,4) array x a fixed family of 2-3 step pipelines. Non-trivial: the pipeline has a step whose "
     "lowering rewrites the tree (reduction, rechunk, chunk alignment of two differently chunked operands, concatenate/"
     "stack, slicing) together with at least one more step; the measured number of cases where optimize() really changed "
@@ -132,7 +133,8 @@ def evaluate(spec):
     except Exception as e:  # noqa: BLE001 - a classic-engine failure is outside C30's domain (C19-C25)
         count("classic_raised")
         raise Reject(f"classic engine raises {type(e).__name__}: {e}") from None
-    if close(cval, want) is not None:
+    if close(cval, want) is not None or tuple(classic.shape) != want.shape or classic.dtype != want.dtype:
+        # (incl. lazy metadata: e.g. the classic x[dask_int_array] reports the length of x instead of the index's)
         count("classic_differs_from_numpy")
         raise Reject("classic engine differs from NumPy")
     sig = flags(spec)
@@ -142,7 +144,7 @@ def evaluate(spec):
         raise Reject(f"not implemented in the expression engine: {out['notimpl']['msg']}")
     if "error" in out:
         e = out["error"]
-        raise Violation(f"expression engine raised {e['type']}: {e['msg']} (stage {e['stage']}, step {e['step']})", f"raises:{e['type']}", stage=e["stage"], where=e["where"], **sig)
+        raise Violation(f"expression engine raised {e['type']}: {e['msg']} (stage {e['stage']}, step {e['step']})", f"raises:{e['type']}", stage=e["stage"], where=e["where"], masked=e.get("masked"), **sig)
     v = out["variants"]
     plain = v["plain"]
     got = W.decode(plain["value"])
@@ -280,13 +282,15 @@ def pipeline(draw):
             fancy = draw(st.sampled_from([None] * 6 + ["l", "d"]))
             items, new = [], []
             fax = draw(st.integers(0, nd - 1)) if fancy else None
+            if fax is not None and shape[fax] == 0:  # nothing to pick from a zero-length axis
+                fancy = fax = None
             for ax, n in enumerate(shape):
                 if ax == fax:
                     ix = draw(st.lists(st.integers(-n, n - 1), min_size=1, max_size=4))
                     items.append(["l", ix] if fancy == "l" else ["d", ix, draw(A.chunks_for_axis(len(ix)))])
                     new.append(len(ix))
                     continue
-                k = draw(st.sampled_from(["s", "s", "s", "full"] + ([] if fancy else ["i", "n"])))
+                k = draw(st.sampled_from(["s", "s", "s", "full"] + ([] if fancy else ["i", "n"] if n else ["n"])))
                 if k == "n" and len(new) + (nd - ax) < 4:
                     items.append(["n"])
                     new.append(1)
